@@ -108,7 +108,13 @@ def enumerate_deviations(fn, d, visit, word_alts=WORD_EXTREMES, max_positions=No
         end = len(log) if max_positions is None else min(len(log), max_positions)
         for i in range(start, end):
             kind, bound = log[i]
-            alts = list(range(1, bound)) if kind == 1 else list(word_alts)
+            if kind != 1:
+                alts = list(word_alts)
+            elif bound <= 9:
+                alts = list(range(1, bound))
+            else:
+                # large bounds (hundreds of sites): the ends and the middle of the range instead of every value
+                alts = sorted({1, 2, bound // 2, bound - 2, bound - 1})
             for a in alts:
                 stack.append((devs + ((i, a),), log[:i + 1]))
     return runs
